@@ -624,6 +624,12 @@ func genC11(g *rand.Rand, tier string) any {
 			a.HStatus = drawStatus(g)
 		}
 		a.CProg = []Op{{K: 'f', A: []Op{{K: 's', N: n}, {K: 'c'}}, B: []Op{{K: 'R'}}}}
+		if a.Kind == KCStream && a.HSendN == 1 && g.IntN(2) == 0 {
+			// the ordinary client-streaming caller: Send x n, then CloseAndRecv - it
+			// cannot receive before it has finished sending
+			a.CProg = []Op{{K: 's', N: n}, {K: 'c'}, {K: 'R'}}
+			a.SeqCaller = true
+		}
 	} else {
 		if a.Kind == KCStream {
 			a.Kind = KSStream
@@ -766,6 +772,9 @@ func execC11(e *Env, pp any) {
 		if p.Abandon.CSendN >= 2 {
 			e.Note("abandon.unconsumed>=2")
 		}
+	}
+	if p.Mode == 0 && p.Abandon.SeqCaller {
+		e.Note("abandon.sequential-cstream-caller")
 	}
 	if p.Mode == 0 && ar.HReturned {
 		e.Note("abandon.handler-early")
@@ -971,6 +980,14 @@ func execC14(e *Env, pp any) {
 		} else {
 			c.Kind = 1 + g.IntN(3)
 			genStream(g, c, Bias{MaxMsgs: 3}, true)
+		}
+		if c.Kind == KSStream && c.Early && (oc == 2 || oc == 3) {
+			// genStream's handler that finishes without reading the request would, with a
+			// wait for its context appended below, be a live handler that does not read
+			// while the caller sends request and half-close: known finding F49, judged in
+			// C11. Here the handler reads its request first, as generated code does.
+			c.Early, c.EarlyK = false, 0
+			c.HProg = []Op{{K: 'r'}}
 		}
 		switch oc {
 		case 1:
